@@ -153,7 +153,7 @@ def run(ctx):
     logging.disable(logging.CRITICAL)
     texts = [(s, {"src": "grammar", "t": t}) for s, t in terms.items()]
     texts += [(s, {"src": "identity"}) for s in producers.corpus_identity()]
-    frac = 6 if ctx.thorough else 48
+    # fixed universe: the (text, dialect) pairs with h % 6 == 0; thorough runs all of it, quick an eighth of it chosen by the seed
     ndraw = 10 if ctx.thorough else 6
     work = []
 
@@ -165,7 +165,8 @@ def run(ctx):
 
     for s, meta in texts:
         for d in dialects:
-            if gram.h(s, d, "c07") % frac == ctx.seed % frac:
+            hv = gram.h(s, d, "c07")
+            if hv % 6 == 0 and (ctx.thorough or (hv // 6) % 8 == ctx.seed % 8):
                 add(s, d, meta)
                 if gram.h(s, d, "cm") % 4 == 0:
                     for cv in gram.comment_variants(s, d, 40)[:: (1 if ctx.thorough else 3)]:
@@ -226,7 +227,8 @@ def run(ctx):
         what = f"{v} in {m['dialect'] or 'base'} under {optname(m['o'])} for {m['sql']!r}: output {m.get('so')!r}, default {m.get('s0')!r} {m.get('error', '')}"
         examples.setdefault(f"{v}:{m['dialect'] or 'base'}:{name}:{site}", what[:400])
         ctx.violation(f"{v}:{m['dialect'] or 'base'}:{name}:{site}", what, {"sql": m["sql"], "dialect": m["dialect"], "o": m["o"]})
-    with open(os.path.join(ctx.work, "key_examples.json"), "w") as f:
+    os.makedirs("/tmp/verif_keys", exist_ok=True)  # triage aid only; nothing registered reads it
+    with open(f"/tmp/verif_keys/{ctx.pid}_{ctx.tier}.json", "w") as f:
         json.dump(examples, f, indent=0, sort_keys=True)
     ctx.notes.update({"verdicts": stats, "option_combinations": len(options), "runs": len(cases), "texts": len(texts)})
     for c in cases[:: max(1, len(cases) // 3)][:3]:
